@@ -138,6 +138,10 @@ class Impl:
                 kw = {"feature_types": [ft for ft, b in zip(self.fts, mask) if b]}
                 if mask == SUPPORTED.get(kind, [1, 1, 1]) and len(ev) > 5 and ev[5]:
                     kw = {}                               # feature_types=None: all supported types
+                if len(ev) > 6 and ev[6] and "feature_types" in kw:
+                    # the feature types as they arrive from a JSON / YAML configuration: plain strings
+                    # (FeatureType is a str enum; the library accepts its values)
+                    kw["feature_types"] = [str(ft.value) for ft in kw["feature_types"]]
                 if kind == 7:
                     kw["feature_observers"] = [self.objs[i] for i in ev[3][0]] if ev[3] else None
                 if kind == 8:
@@ -241,6 +245,17 @@ class C11(Check):
         elif r < 0.55:
             kw.update(flexible=False)
         spec = common.gen_instance(rng, **kw)
+        if 0.25 <= r < 0.35 and rng.random() < 0.6 and len(spec) >= 2:
+            # rectangular AND recirculating: start from "every job visits every machine once" with as many
+            # operations per job as there are machines, then exchange machines between two jobs so that every
+            # machine keeps its number of operations while one job visits a machine twice and skips another
+            nm = common.num_machines_of(spec)
+            if all(len(job) == nm for job in spec) and nm >= 2:
+                for _ in range(rng.randint(1, 2)):
+                    a, b = rng.sample(range(len(spec)), 2)
+                    p, q = rng.randrange(nm), rng.randrange(nm)
+                    spec[a][p][0], spec[b][q][0] = spec[b][q][0], spec[a][p][0]
+                self.note("inst_rectangular_with_recirculation")
         if rng.random() < 0.2:                                # unused machine ids
             shift = rng.randint(1, 2)
             spec = [[[[m + shift if m >= 1 or rng.random() < 0.5 else m for m in ms], d] for ms, d in job]
@@ -261,7 +276,7 @@ class C11(Check):
             mask = [1, 0, 0]      # PositionInJobObserver indexes features[OPERATIONS] unconditionally
         if allow_bad and rng.random() < 0.04:
             mask = [1, 1, 1]
-        ev = [2, kind, mask, [], int(rng.random() < 0.5), int(rng.random() < 0.5)]
+        ev = [2, kind, mask, [], int(rng.random() < 0.5), int(rng.random() < 0.5), int(rng.random() < 0.2)]
         sim.construct(kind, mask)
         return ev
 
